@@ -35,7 +35,8 @@ SHARD_TIMEOUT = {'quick': 300, 'thorough': 3000}
 METHODS = ['GET', 'POST', 'OPTIONS', 'PUT', 'DELETE', 'HEAD', 'PATCH']
 EIO = [None, '3', '4', '5', '4 ', '04']
 TRANSPORT = [None, 'polling', 'websocket', 'foo']
-SIDK = ['absent', 'live', 'upgraded', 'mid', 'closed', 'unknown', 'rejected']
+SIDK = ['absent', 'live', 'upgraded', 'mid', 'closed', 'unknown', 'rejected',
+        'live+ctl']     # live+ctl: a live id with a control character added
 HDRS = ['none', 'both', 'upgrade-only', 'wrong']
 JP = [None, '0', '12', 'abc', '1x']
 CONF = [None, 'polling', 'websocket']
@@ -72,7 +73,7 @@ def must_refuse(method, eio, transport, sidk, hdrs, jp, conf):
         if eio in ('4 ', '04'):
             return None
         return None if tr == 'websocket' else False
-    if sidk in ('closed', 'unknown', 'rejected'):
+    if sidk in ('closed', 'unknown', 'rejected', 'live+ctl'):
         return True
     # live session named
     if method == 'GET':
@@ -131,6 +132,15 @@ def prepare(sim, conf):
         rej = [e for e in sim.events if e['ev'] == 'connect'][-1]['sid']
         pop['rejected'] = type('H', (), {'sid': rej})()
     pop['unknown'] = type('H', (), {'sid': 'nosuchsidAAAAAAAAAAA'})()
+    # the id of a live session with a control character in it (it names no
+    # session)
+    base = pop.get('live') or pop.get('upgraded')
+    if base is not None and base.sid:
+        k = len(sim.events) % 4
+        ctl = ['\n', '\x00', '\t', '\r\n'][k]
+        pos = [len(base.sid), 0, 10, len(base.sid)][k]
+        pop['live+ctl'] = type('H', (), {
+            'sid': base.sid[:pos] + ctl + base.sid[pos:]})()
     return pop
 
 
